@@ -856,7 +856,13 @@ impl Oracle {
                 .iter()
                 .map(|i| i.cands.iter().map(|c| c.len()).max().unwrap_or(0))
                 .sum();
-            self.cut_mid_row = c > 0 && c < self.w && tall > self.h;
+            // an uncut draw that paints anything ends with the right-edge filler (c == w); a draw cut by
+            // the height `break` before its last line ends wherever its last painted line ends
+            let last_up = o.emitted.iter().rposition(|x| matches!(x, TOp::Up(_))).unwrap_or(0);
+            let painted_something = o.emitted[last_up..].iter().any(|x| matches!(x, TOp::Str(_)));
+            if painted_something {
+                self.cut_mid_row = c < self.w && tall > self.h;
+            }
         }
         if let Some(what) = must_paint {
             if !painted {
